@@ -122,12 +122,20 @@ InterceptShares(nd, j, m) ==
       [] Flavour = "service" -> [nd |-> [nd EXCEPT !.sigs[m.r] = @ \cup {j}], out |-> <<m>>]
 
 (* interceptDecryptionKeys for a keys message WITHOUT extra (made by the core handler for round r).
-   gnosis takes slot, tx pointer AND signatures from the CURRENT trigger, whatever round the keys
-   message belongs to; service selects the signatures by the identities hash of the message *)
+   gnosis takes slot, tx pointer AND signatures from the CURRENT trigger; service selects the
+   signatures by the identities hash of the message.
+   GnosisKeysIntercept = "checked" (after fix /verif/out/fixes/C03-1.diff): a keys message whose
+   identity list is not the current trigger's is dropped, as interceptDecryptionKeyShares does.
+   "unchecked" is the original code: late shares of round r that complete the threshold after the
+   node was triggered for the next round produced KeysMsg(j, r, cur, signatures of cur), which no
+   validator accepts (StepOK fails: TLC counterexample N=2, T=2, rounds {A},{A,B}, 6 steps), and
+   moved the tx pointer by Len(Rounds[r]) - 1. *)
+GnosisKeysIntercept == "checked"
 InterceptKeys(nd, j, r) ==
     CASE Flavour = "core" -> [nd |-> nd, out |-> <<KeysMsg(j, r, 0, <<>>)>>]
       [] Flavour = "gnosis" ->
             IF nd.cur = 0 THEN [nd |-> nd, out |-> <<>>]       \* no current trigger: dropped
+            ELSE IF GnosisKeysIntercept = "checked" /\ nd.cur # r THEN [nd |-> nd, out |-> <<>>]
             ELSE IF Cardinality(nd.sigs[nd.cur]) < T THEN [nd |-> nd, out |-> <<>>]
             ELSE [nd |-> [nd EXCEPT !.ptr = Len(Rounds[r]) - 1],                     \* advanceTxPointer
                   out |-> <<KeysMsg(j, r, nd.cur, FirstT(nd.sigs[nd.cur]))>>]
